@@ -750,8 +750,13 @@ def remap_by_types(
 
                 # See if someone wants to process the call
                 if func_info.processor_function is not None:
-                    r_stream, r_node = func_info.processor_function(self.stream, r_node)
-                    assert isinstance(r_node, ast.AST)
+                    r_stream, new_node = func_info.processor_function(self.stream, r_node)
+                    assert isinstance(new_node, ast.AST)
+                    if new_node is not r_node and not hasattr(new_node, "_old_ast"):
+                        # Remember which call site this replaces, so the change is also carried
+                        # back when we are inside a nested lambda.
+                        new_node._old_ast = getattr(r_node, "_old_ast", r_node)  # type: ignore
+                    r_node = new_node
                     self._stream = r_stream
 
                 # And if we have a return annotation, then we should record it!
